@@ -65,7 +65,7 @@ L = 16            # SecInt bit length used by generated programs
 BOUND = 1 << 13   # generated values stay below this magnitude
 
 
-def gen_spec(rng, m, n_ops, with_mod=False, with_barrier=False, with_exc=False, with_ucoro=False):
+def gen_spec(rng, m, n_ops, with_mod=False, with_barrier=False, with_exc=False, with_ucoro=False, with_typed=True):
     """Random secure-integer program as a JSON-able op list, together with its Python-int oracle."""
     ops, vals, futs, results = [], [], [], []
     pending_f = []
@@ -88,6 +88,8 @@ def gen_spec(rng, m, n_ops, with_mod=False, with_barrier=False, with_exc=False, 
         kinds += ['exc', 'stop']
     if with_ucoro:
         kinds += ['ucoro'] * 5
+    if with_typed:
+        kinds += ['tout'] * 3
     tagno = 0
     while len(ops) < n_ops:
         k = rng.choice(kinds)
@@ -145,6 +147,40 @@ def gen_spec(rng, m, n_ops, with_mod=False, with_barrier=False, with_exc=False, 
             ops.append(['barrier'])
         elif k in ('exc', 'stop'):
             ops.append([k, rng.randrange(2)])
+        elif k == 'tout':
+            # a value of another secure type (float, fixed point, group element; or an existing secure integer), provided
+            # by one party, one cheap operation, output to ALL parties / a strict nonempty SUBSET / a SINGLE party
+            kind = rng.choice(['flt16', 'flt32', 'flt16', 'fxp', 'int', 'sym', 'qr'])
+            if kind == 'sym' and m >= 5:
+                # SecSymmetricGroup(4) with m=5 parties gets sectype GF(5^2); its group operation (seclist index ->
+                # unit_vector -> to_bits) raises 'Binary field or prime field required' inside a coroutine and every party
+                # hangs: a defect of the secure-group layer (C28/C39 territory, reported to the lead), not of labelling
+                kind = 'qr'
+            sender = rng.randrange(m)
+            rc = rng.choice(['all', 'subset', 'subset', 'single'])
+            if rc == 'all':
+                R = None
+            elif rc == 'single':
+                R = rng.randrange(m)
+            else:
+                R = sorted(rng.sample(range(m), rng.randint(1, m - 1)))
+            if kind in ('flt16', 'flt32'):
+                v = rng.choice([0.0, 1.0, -0.75, 3.5, 12.0, -40.0, 0.5, 0.015625])
+                exp = -v + 0.0
+            elif kind == 'fxp':
+                v = rng.choice([0.0, 2.5, -1.25, 7.0, -30.5])
+                exp = 2 * v
+            elif kind == 'int':
+                v = pick()
+                exp = vals[v]
+            elif kind == 'sym':
+                v = list(rng.sample(range(4), 4))
+                exp = [v[v[q]] for q in range(4)]
+            else:
+                v = rng.choice([1, 4, 9, 16])
+                exp = v * v
+            ops.append(['tout', kind, sender, v, R, exp])
+            results.append(exp)
         elif k == 'ucoro':
             # user coroutine (@mpc.coroutine) of one of the declaration forms; all of them open x inside (network round)
             form = rng.choice(['type', 'none', 'annot', 'annot_none', 'raise'])
@@ -203,7 +239,40 @@ def make_prog(spec, mon=None, barrier_log=None):
             if opno and mon is not None:
                 mon.after_statement(pid, opno - 1, ops[opno - 1][0], mpc)
             k = op[0]
-            if k == 'ucoro':
+            if k == 'tout':
+                kind, sender, v, R, exp = op[1:]
+                mine = pid == sender
+                if kind in ('flt16', 'flt32'):
+                    T = mpc.SecFlt(16 if kind == 'flt16' else 32)
+                    y = -mpc.input(T(v if mine else 0.0), senders=sender)
+                elif kind == 'fxp':
+                    T = mpc.SecFxp(16)
+                    x = mpc.input(T(v if mine else 0.0), senders=sender)
+                    y = x + x
+                elif kind == 'int':
+                    y = xs[v]
+                elif kind == 'sym':
+                    T = mpc.SecSymmetricGroup(4)
+                    g = mpc.input(T(T.group(tuple(v)) if mine else T.group.identity), senders=sender)
+                    y = g @ g
+                else:
+                    T = mpc.SecQuadraticResidues(l=10)
+                    g = mpc.input(T(T.group(v) if mine else T.group.identity), senders=sender)
+                    y = g @ g
+                r = await (mpc.output(y) if R is None else mpc.output(y, receivers=R))
+                if R is None or pid == R or (isinstance(R, list) and pid in R):
+                    if kind == 'sym':
+                        r = list(r.value)
+                    elif kind == 'qr':
+                        r = int(r.value)
+                    elif kind == 'int':
+                        r = int(r)
+                    else:
+                        r = float(r) + 0.0
+                    res.append(r)
+                else:
+                    res.append(exp if r is None else 'non-receiver obtained %r' % (r,))
+            elif k == 'ucoro':
                 f_ = {'type': u_type, 'none': u_none, 'annot': u_annot, 'annot_none': u_annot_none, 'raise': u_raise}[op[1]]
                 r = f_(xs[op[2]])
                 if op[1] == 'type':
